@@ -32,13 +32,16 @@ of the trusted reading, none is generated):
   of bytes written to it so far, `Sum64` as `PathSet.crc64` of them, `int(uint64)` as
   `PathSet.toInt64`; `[]byte(s)` as the UTF-8 bytes of `s`;
 * `set.Rules[Path]` values are `RulesImpl` (is it `pathSetRules{}` or anything else);
-* the wrapped `set.Set[Path]` of a `PathSet` is a `SetImpl` with its model operations;
-  the calls a method makes on its receiver's set that change it (`Add`) are recorded
-  as the list of their arguments.
+* the wrapped `set.Set[Path]` of a `PathSet` is a `SetImpl (List PathStep)` with its model operations, the
+  set's rules a parameter `R`; a method without a result returns the new state of its receiver's set;
+  `for it := s.Iterator(); it.Next();` ranges over `SetImpl.iter R s`;
+* a callback parameter is a `Walk.WalkCb`, and a function that takes one threads the log of its invocations
+  (section "callbacks" below); `ElementIterator` delivers the model's `Walk.children` (section "element iteration").
 
 Core only (imported by the generated file).
 -/
 import CtyModel.PathSet
+import CtyModel.Walk
 namespace CtyModel
 namespace PathGo
 
@@ -150,6 +153,66 @@ def sliceDone : List (Option PathStep) → Res (List PathStep)
   | [] => .ok []
   | some s :: xs => (sliceDone xs).map (s :: ·)
   | none :: _ => .unmodelled
+
+/-- `make([]Path, 0, n)` -/
+def makePaths (n : Int) : Res (List (List PathStep)) :=
+  if n < 0 then .panic "makeslice: cap out of range" else .ok []
+
+/-! ### callbacks: the log of invocations (cty/walk.go)
+
+A function that takes a callback `cb func(Path, Value) (bool, error)` is read as in the hand-written `Walk.lean`:
+the callback is a `Walk.WalkCb` (its answer may depend on the invocations made so far), the function takes the
+log of invocations so far and returns the log at its end together with its outcome. -/
+
+/-- a step that cannot call the callback: a panic ends the function with the log as it stands -/
+def bindT {α β} (log : List Walk.Visit) (r : Res α) (k : α → List Walk.Visit × Res β) : List Walk.Visit × Res β :=
+  match r with
+  | .ok a => k a
+  | .err c => (log, .err c)
+  | .panic w => (log, .panic w)
+  | .unmodelled => (log, .unmodelled)
+
+/-- `x, err := cb(path, val)`: `log'` is the log with this invocation, however it ends -/
+def callCb {α β} (log' : List Walk.Visit) (r : Res α) (kOk : α → List Walk.Visit × Res β)
+    (kErr : String → List Walk.Visit × Res β) : List Walk.Visit × Res β :=
+  match r with
+  | .ok a => kOk a
+  | .err e => kErr e
+  | .panic w => (log', .panic w)
+  | .unmodelled => (log', .unmodelled)
+
+/-- `x, err := f(…, cb)` for a function that takes the callback -/
+def callT {α β} (r : List Walk.Visit × Res α) (kOk : List Walk.Visit → α → List Walk.Visit × Res β)
+    (kErr : List Walk.Visit → String → List Walk.Visit × Res β) : List Walk.Visit × Res β :=
+  match r with
+  | (l, .ok a) => kOk l a
+  | (l, .err e) => kErr l e
+  | (l, .panic w) => (l, .panic w)
+  | (l, .unmodelled) => (l, .unmodelled)
+
+/-! ### element iteration (cty/element_iterator.go) -/
+
+/-- `v.AsString()`: panics unless `v` is a known, non-null, unmarked string -/
+def asString (v : Value) : Res String :=
+  match v.ty, v.v with
+  | .string, .s s => .ok s
+  | _, _ => .panic "AsString on a value that is not a known string"
+
+/-- `v.CanIterateElements()` (`canElementIterator`): unmarked, of a collection or structural type -/
+def canIterateElements (v : Value) : Bool :=
+  !v.isMarked && (isListType v.ty || isMapType v.ty || isSetType v.ty || isTupleType v.ty || isObjectType v.ty)
+
+/-- the key an `ElementIterator` delivers for the member a step of the model's `children` leads to:
+the attribute name as a string value for an object, the index / key / member itself otherwise -/
+def stepKey : PathStep → Value
+  | .getAttr n => Value.strVal n
+  | .index k => k
+
+/-- `for it := v.ElementIterator(); it.Next(); { k, e := it.Element() }` on a known, non-null, unmarked value:
+the (key, element) pairs in iteration order — the model's `Walk.children` (list/tuple by index, map/object by
+sorted key, set in `X.iter` order with the member as its own key) -/
+def elements (X : SetOracle) (v : Value) : List (Value × Value) :=
+  (Walk.children X v).map fun sc => (stepKey sc.1, sc.2)
 
 /-! ### `hash/crc64` -/
 
